@@ -220,6 +220,61 @@ def eqM (a b : Val) : M Bool := do
   | some r => pure r
   | none => throwCtl (.unsupported "equality of these values")
 
+/-! ## JSON (`runtime/value/json.go` = `interpreter/value/json.go`) -/
+
+/-- A line break + indentation of `json.MarshalIndent(v, "", "    ")` at nesting depth `d`; nothing for `json.Marshal`. -/
+def jsonNl (indent : Bool) (d : Nat) : String :=
+  if indent then "\n" ++ String.ofList (List.replicate (4 * d) ' ') else ""
+
+mutual
+/-- `json.Marshal(MarshalValue(v))` / `json.MarshalIndent`: object keys sorted, `none` / `null` as
+`null`, `Some(x)` as `x`, floats through `jsonFloat`. `none`: outside the modelled class (ranges and
+function values, which make Go report an error or skip the value; floats outside the dyadic class). -/
+def toJson (heap : Array Cell) (indent : Bool) : Nat → Nat → Val → Option String
+  | 0, _, _ => none
+  | fuel + 1, d, v =>
+    match v with
+    | .null => some "null"
+    | .int i => some (fmtInt i)
+    | .float f => jsonFloat? f
+    | .bool b => some (if b then "true" else "false")
+    | .str s => some (jsonString s)
+    | .opt none => some "null"
+    | .opt (some x) => toJson heap indent fuel d x
+    | .ref a =>
+      match heap[a]? with
+      | some (.list xs) =>
+        if xs.isEmpty then some "[]"
+        else (toJsonList heap indent fuel (d + 1) xs).map fun es =>
+          "[" ++ jsonNl indent (d + 1) ++ ("," ++ jsonNl indent (d + 1)).intercalate es ++ jsonNl indent d ++ "]"
+      | some (.obj fs) | some (.anyobj fs) =>
+        if fs.isEmpty then some "{}"
+        else (toJsonFields heap indent fuel (d + 1) (sortFields fs)).map fun es =>
+          "{" ++ jsonNl indent (d + 1) ++ ("," ++ jsonNl indent (d + 1)).intercalate es ++ jsonNl indent d ++ "}"
+      | none => none
+    | _ => none
+def toJsonList (heap : Array Cell) (indent : Bool) : Nat → Nat → List Val → Option (List String)
+  | 0, _, _ => none
+  | _ + 1, _, [] => some []
+  | fuel + 1, d, x :: xs => do
+    let e ← toJson heap indent fuel d x
+    let es ← toJsonList heap indent fuel d xs
+    pure (e :: es)
+def toJsonFields (heap : Array Cell) (indent : Bool) : Nat → Nat → List (String × Val) → Option (List String)
+  | 0, _, _ => none
+  | _ + 1, _, [] => some []
+  | fuel + 1, d, (k, x) :: xs => do
+    let e ← toJson heap indent fuel d x
+    let es ← toJsonFields heap indent fuel d xs
+    pure ((jsonString k ++ (if indent then ": " else ":") ++ e) :: es)
+end
+
+def toJsonM (indent : Bool) (v : Val) : M Val := do
+  let s ← get
+  match toJson s.heap indent 1000000 0 v with
+  | some t => pure (.str t)
+  | none => throwCtl (.unsupported "to_json of this value")
+
 /-! ## Operators -/
 
 def intOp (op : InfixOp) (a b : I64) (sp : Span) : M Val :=
@@ -779,6 +834,87 @@ def strParseFloat (s : String) (sp : Span) : M Val :=
   | .syntaxErr => strconvErr "ParseFloat" s "invalid syntax" sp
   | .unmodelled => throwCtl (.unsupported "parse_float outside the decided class")
 
+/-! `parse_json`: `json.Unmarshal` into `interface{}` followed by `UnmarshalValue`. Modelled for valid
+documents of the decided class (numbers without exponent that `jsonNumber?` decides, strings without
+surrogate escapes); everything else — syntax errors with their `encoding/json` texts included — is
+answered `unsupported`. JSON objects become objects (a repeated key keeps its last value), `null`
+becomes `none`, a whole number becomes an int. -/
+
+def jsonUnmodelled {α} : M α := throwCtl (.unsupported "parse_json outside the decided class")
+
+def jsonSetField (fs : List (String × Val)) (k : String) (v : Val) : List (String × Val) :=
+  if (fs.lookup k).isSome then fs.map fun kv => if kv.1 == k then (kv.1, v) else kv else fs ++ [(k, v)]
+
+def isJsonNumChar (c : Char) : Bool := c == '-' || c == '+' || c == '.' || c == 'e' || c == 'E' || ('0' ≤ c && c ≤ '9')
+
+mutual
+/-- One JSON value at the head of `cs` (after optional white space): the value and the rest. -/
+def pjValue : Nat → List Char → M (Val × List Char)
+  | 0, _ => jsonUnmodelled
+  | fuel + 1, cs =>
+    match jsonSkipWs cs with
+    | '{' :: rest =>
+      match jsonSkipWs rest with
+      | '}' :: rest' => do pure (← alloc (.obj []), rest')
+      | rest' => pjMembers fuel rest' []
+    | '[' :: rest =>
+      match jsonSkipWs rest with
+      | ']' :: rest' => do pure (← alloc (.list []), rest')
+      | rest' => pjElems fuel rest' []
+    | '"' :: rest =>
+      match jsonStringBody (rest.length + 1) [] rest with
+      | some (s, rest') => pure (.str s, rest')
+      | none => jsonUnmodelled
+    | 't' :: 'r' :: 'u' :: 'e' :: rest => pure (.bool true, rest)
+    | 'f' :: 'a' :: 'l' :: 's' :: 'e' :: rest => pure (.bool false, rest)
+    | 'n' :: 'u' :: 'l' :: 'l' :: rest => pure (.opt none, rest)
+    | cs' =>
+      let num := cs'.takeWhile isJsonNumChar
+      match jsonNumber? num with
+      | some (.int i) => pure (.int i, cs'.drop num.length)
+      | some (.float f) => pure (.float f, cs'.drop num.length)
+      | none => jsonUnmodelled
+/-- The elements of an array after `[` (at least one), up to and including `]`. -/
+def pjElems : Nat → List Char → List Val → M (Val × List Char)
+  | 0, _, _ => jsonUnmodelled
+  | fuel + 1, cs, acc => do
+    let (v, rest) ← pjValue fuel cs
+    match jsonSkipWs rest with
+    | ',' :: rest' => pjElems fuel rest' (acc ++ [v])
+    | ']' :: rest' => do pure (← alloc (.list (acc ++ [v])), rest')
+    | _ => jsonUnmodelled
+/-- The members of an object after `{` (at least one), up to and including `}`. -/
+def pjMembers : Nat → List Char → List (String × Val) → M (Val × List Char)
+  | 0, _, _ => jsonUnmodelled
+  | fuel + 1, cs, acc =>
+    match jsonSkipWs cs with
+    | '"' :: rest =>
+      match jsonStringBody (rest.length + 1) [] rest with
+      | some (k, rest') =>
+        match jsonSkipWs rest' with
+        | ':' :: rest'' => do
+          let (v, rest3) ← pjValue fuel rest''
+          match jsonSkipWs rest3 with
+          | ',' :: rest4 => pjMembers fuel rest4 (jsonSetField acc k v)
+          | '}' :: rest4 => do pure (← alloc (.obj (jsonSetField acc k v)), rest4)
+          | _ => jsonUnmodelled
+        | _ => jsonUnmodelled
+      | none => jsonUnmodelled
+    | _ => jsonUnmodelled
+end
+
+def strParseJson (s : String) : M Val := do
+  let (v, rest) ← pjValue (s.length + 2) s.toList
+  if (jsonSkipWs rest).isEmpty then pure v else jsonUnmodelled
+
+def strCompareLev (s : String) (vals : List Val) : M Val :=
+  match vals with
+  | [.str t] =>
+    match goLevenshtein? s.toList t.toList with
+    | some d => pure (.int (I64.ofInt d))
+    | none => throwCtl (.unsupported "compare_lev of very long strings")
+  | _ => throwCtl (.unsupported "member compare_lev")
+
 def strMember (s : String) (name : String) (vals : List Val) (sp : Span) : M Val :=
   if name == "substring" then strSubstring s vals sp
   else if name == "replace" then strReplace s vals
@@ -788,6 +924,8 @@ def strMember (s : String) (name : String) (vals : List Val) (sp : Span) : M Val
   else if name == "parse_int" && vals.isEmpty then strParseInt s sp
   else if name == "parse_bool" && vals.isEmpty then strParseBool s sp
   else if name == "parse_float" && vals.isEmpty then strParseFloat s sp
+  else if name == "parse_json" && vals.isEmpty then strParseJson s
+  else if name == "compare_lev" then strCompareLev s vals
   else throwCtl (.unsupported ("member " ++ name))
 
 /-- `sort` of the list at address `a` with elements `xs` (`valueList.go`). -/
@@ -887,6 +1025,8 @@ def callMember (recv : Val) (name : String) (vals : List Val) (sp : Span) : M Va
       else do writeCell a (.list (xs.eraseIdx k.toNat)); pure .null
     | .list _, "to_string", [] => do pure (.str (← displayM recv))
     | .list xs, "sort", [] => listSort a xs
+    | _, "to_json", [] => toJsonM false recv
+    | _, "to_json_indent", [] => toJsonM true recv
     | .obj _, "to_string", [] => do pure (.str (← displayM recv))
     | .obj fs, "keys", [] => do alloc (.list ((sortFields fs).map fun (k, _) => Val.str k))
     | .anyobj fs, "keys", [] => do alloc (.list ((sortFields fs).map fun (k, _) => Val.str k))
